@@ -273,7 +273,7 @@ def isRmw : Mn → Bool
 
 /-- READ-MODIFY-WRITE: in the data-sheet semantics a memory RMW instruction is: compute the effective
     address, ONE load of it, ONE store to it, and the stored byte is the MODIFIED value `rmw` computes from
-    the loaded one.  By C01 (`C01_step_partial`: the store nodes of the code's tree carry the specification's
+    the loaded one.  By C01 (`C01_step_partial`, and as a statement about executions `C01_path_stores`: the store nodes of the code's tree carry the specification's
     addresses and values, in order, and there are no others) the implemented step makes exactly this one
     store — so a trap address hit by INC/DEC/ASL/LSR/ROL/ROR/TSB/TRB/RMBn/SMBn sees one call with the
     modified byte. -/
